@@ -1,4 +1,5 @@
 import ZV.Model.Der0
+import ZV.Model.Time
 /-!
   Model of `cryptobyte.Builder` (builder.go, the Builder half of asn1.go) and of the matching
   `cryptobyte.String` readers (string.go, the String half of asn1.go) as write/read PROGRAMS.
@@ -15,7 +16,8 @@ import ZV.Model.Der0
     ZV/Props/C21.lean); the driver still prints `SPEC-MISMATCH` if the two ever differ at run time.
   * `readProg` and the optional readers (`readOptionalASN1`, `readOptionalInt`, `readOptionalOctets`,
     `readOptionalBool` = the version after the fix for D1).
-  ASN.1 leaf values reuse the content functions and readers of `ZV.Model.Der0` (namespace `CB`).
+  ASN.1 leaf values reuse the content functions and readers of `ZV.Model.Der0` (namespace `CB`);
+  GENERALIZEDTIME (`AddASN1GeneralizedTime` ↔ `ReadASN1GeneralizedTime`) those of `ZV.Model.Time`.
 -/
 namespace ZV.C21
 open ZV ZV.Der0
@@ -23,6 +25,7 @@ open ZV ZV.Der0
 inductive Val where
   | nat (n : Nat) | int (v : Int) | bytes (b : Bytes) | bool (b : Bool) | oid (o : List Nat)
   | bits (len : Int) (b : Bytes) | null | present | absent | presentBytes (b : Bytes)
+  | time (t : ZV.Time.GoTime)
   deriving Repr, DecidableEq
 
 inductive Prog where
@@ -47,6 +50,7 @@ inductive Prog where
   | noOctets (tag : UInt8) (k : Prog)
   | optBool (v dflt : Bool) (k : Prog)
   | noBool (dflt : Bool) (k : Prog)
+  | gtime (t : ZV.Time.GoTime) (k : Prog)        -- AddASN1GeneralizedTime ↔ ReadASN1GeneralizedTime
   deriving Repr
 
 /-! ## low-level Builder -/
@@ -147,6 +151,9 @@ def build : Prog → Builder → Builder
   | .noOctets _ k, b => build k b
   | .optBool v _ k, b => build k (addASN1 b 1 (fun c => add c (boolContent v)))
   | .noBool _ k, b => build k b
+  | .gtime t k, b =>
+    build k (if t.year < 0 ∨ t.year > 9999 then { b with err := true }   -- `b.err = fmt.Errorf(…); return`
+             else addASN1 b 0x18 (fun c => add c (ZV.Time.format ZV.Time.layoutGen t)))
 
 /-- `var b Builder; …; b.Bytes()` -/
 def buildBytes (p : Prog) : Res Bytes :=
@@ -197,6 +204,7 @@ def ser : Prog → Res Bytes
   | .noOctets _ k => ser k
   | .optBool v _ k => Res.append (CB.addASN1Boolean v) (ser k)
   | .noBool _ k => ser k
+  | .gtime t k => Res.append (ZV.Time.CB.addGeneralizedTime t) (ser k)
 
 /-! ## String readers -/
 
@@ -386,6 +394,11 @@ def readProg : Prog → Bytes → Res (List Val × Bytes)
      | .ok (v, r) => cons (.bool v) (readProg k r)
      | .err => .err
      | .panic => .panic)
+  | .gtime _ k, s =>
+    (match ZV.Time.CB.readGeneralizedTime s with
+     | .ok (v, r) => cons (.time v) (readProg k r)
+     | .err => .err
+     | .panic => .panic)
 
 /-- the values a program writes (what the mirrored read must return) -/
 def values : Prog → List Val
@@ -410,5 +423,6 @@ def values : Prog → List Val
   | .noOctets _ k => .absent :: values k
   | .optBool v _ k => .bool v :: values k
   | .noBool d k => .bool d :: values k
+  | .gtime t k => .time (ZV.Time.readBack t) :: values k
 
 end ZV.C21
